@@ -233,6 +233,8 @@ func c08(c *Ctx) {
 	rd.closeCodeTable("C08.codes", false, true)
 	rd.sticky("C08.sticky")
 	c08defaults(c, rd, "C08.defaults")
+	r.Rule("C08.reply-private", "the pong / close reply is assembled by WriteControl in memory private to the call: nothing reachable from the Conn is written before Conn.mu is held, so a concurrent WriteControl cannot overwrite the reply (same rule as C11.timeout-paths)")
+	newTransport(c).noSharedBeforeLock("C08.reply-private")
 }
 
 func c08defaults(c *Ctx, rd *reader, rule string) {
@@ -299,6 +301,11 @@ func c08defaults(c *Ctx, rd *reader, rule string) {
 			}
 			if !p.Results[0].IsNil() {
 				okD, whyD = false, "default handler returns a non-nil error"
+			}
+			for _, w := range wc {
+				if len(w.Args) == 4 && !futureDeadline(w.Args[3]) {
+					okD, whyD = false, "default handler replies with the deadline "+w.Args[3].String()+", which is not now + a positive constant (a deadline that may already have passed sends nothing)"
+				}
 			}
 			switch s.field {
 			case rd.handlePong:
